@@ -67,7 +67,8 @@ def generate(rng, tier):
         fam = "valid"
         if k < 0.06: vb, fam = None, "vb-absent"
         elif k < 0.12: vb, fam = rng.choice(["", " ", "0 0 100", "1,2,3", "0 0"]), "vb-short"
-        elif k < 0.17: vb, fam = rng.choice(["0 0 abc 10", "a b c d", "0 0 10 1o", "0 0 10px 10", "x 0 10 10", "0 0 1e 5"]), "vb-non-numeric"
+        elif k < 0.17: vb, fam = rng.choice(["0 0 abc 10", "a b c d", "0 0 10 1o", "0 0 10px 10", "x 0 10 10", "0 0 1e 5",
+                                             "0 0 inf 10", "0 0 10 nan", "0 0 1_0 10", "nan 0 10 10", "0 -inf 10 10", "0 0 \u0661\u0660 10", "0 0 Infinity 5"]), "vb-non-numeric"
         elif k < 0.24: vb, fam = "%s %s %s %s" % (_num(rng), _num(rng), rng.choice(["0", "-5", _pos(rng)]), rng.choice(["0", "-1", "0.0"])), "vb-non-positive"
         else:
             sep = rng.choice([" ", ",", ", ", "  ", " ,", "\t"])
